@@ -83,7 +83,8 @@ def run(tier, seed):
             src = "#[::entrait::entrait(%s%s)] /*@inv*/\nmod %s { pub %sfn %s%s(%s, v: i32) -> i32 { v } pub fn other%s(%s) {} }\n" % (
                 name, ", " + opt if opt else "", fname, asy, fname, gen, dep, gen, dep)
         elif kind == "trait":
-            topt = rng.choice(["", "?Send", "delegate_by = ref", "%sImpl, delegate_by = Delegate%s" % (name, name), "mock_api = M", "delegate_by = %s" % rng.choice(VOC)])
+            topt = rng.choice(["", "?Send", "delegate_by = ref", "%sImpl, delegate_by = Delegate%s" % (name, name), "mock_api = M", "delegate_by = %s" % rng.choice(VOC),
+                               "%sImpl, delegate_by = ref" % name, "%sImpl, delegate_by = Borrow" % name, "pub %sImpl, delegate_by = ref" % rng.choice(VOC)])
             src = "#[::entrait::entrait(%s)] /*@inv*/\ntrait %s%s { %sfn %s(&self, v: i32) -> i32; }\n" % (
                 topt, name, ": " + " + ".join(bounds) if bounds else "", asy, fname)
         else:
